@@ -17,7 +17,7 @@ ASSUMPTIONS = [LEVEL_NOTE, "readelf is ground truth"]
 
 
 def plan(tier):
-    return {"n": 300 if tier == "quick" else 4000, "floor": 80 if tier == "quick" else 1000}
+    return {"n": 300 if tier == "quick" else 1200, "floor": 80 if tier == "quick" else 300}
 
 
 def rule(tier):
